@@ -220,12 +220,18 @@ func init() {
 				rep.Finding(f.Rule, f.Detail, map[string]any{"job": json.RawMessage(jobs[i].Args), "kind": "c13", "case": f.Detail})
 			}
 		}
+		per, sexecs, sex := c13Schedules(rep, pool)
+		if !sex {
+			exhaustive = false
+		}
+		rep.Cov["concurrent_requests"] = per
+		rep.Cov["schedules"] = sexecs
 		rep.Cov["states"] = len(lists)
-		rep.Cov["transitions"] = probes + control
-		rep.Cov["traces_validated_against_impl"] = probes + control
+		rep.Cov["transitions"] = probes + control + sexecs
+		rep.Cov["traces_validated_against_impl"] = probes + control + sexecs
 		rep.Cov["evaluations"] = probes
 		rep.Cov["distinct_nontrivial"] = probes / 2
-		rep.Cov["rule"] = "every ordered list of distinct service names (16 incl. the empty list) x every (method, path) reported by gin's Engine.Routes() x 11 token kinds x 2 attempts, against a world with a live session, a reservation and a notification URI; plus one control probe per route with a valid NRF-signed RS512 token"
+		rep.Cov["rule"] = "every ordered list of distinct service names (16 incl. the empty list) x every (method, path) reported by gin's Engine.Routes() x 11 token kinds x 2 attempts, against a world with a live session, a reservation and a notification URI; plus one control probe per route with a valid NRF-signed RS512 token; plus (concurrent_requests) every placement of up to k preemptions at statement-level scheduling points inside the authorisation code while a request with a valid token and one without are in flight on the recharging route"
 		rep.Cov["service_lists"] = len(lists)
 		rep.Cov["routes_probed"] = routes
 		rep.Cov["control_probes"] = control
